@@ -136,7 +136,7 @@ def main():
     t0 = time.time()
     P4, W3 = fe.PRIORS, fe.WMODES
     if chk.thorough:
-        wall_cap = 840
+        wall_cap = 800
         # panic at EVERY phase point:
         panic_cfgs = dedup(
             cfgs(["exe"], [True], [4], W3, P4) +                           # full prior x mode
@@ -243,7 +243,7 @@ def main():
                 chk.machinery(str(ex))
         plan = natural + st_cases + panics + unc
         results, not_run = fe.run_plan(plan, wall_cap, t0, seed=chk.seed,
-                                       batch=1000 if chk.thorough else 200)
+                                       batch=500 if chk.thorough else 200)
         # --- evaluate
         classes = collections.Counter()
         uncatchable = collections.defaultdict(collections.Counter)
